@@ -178,11 +178,15 @@ func (g *Gen) Run() (err error) {
 func (g *Gen) block(b *ssa.BasicBlock, entry *State) {
 	g.curBlock = b
 	var st *State
-	rname := fmt.Sprintf("r_%d", b.Index)
+	rname := g.pfx + fmt.Sprintf("r_%d", b.Index)
 	var edges []string
 	var preds []*ssa.BasicBlock
 	if b.Index == 0 {
-		g.define(rname, "Bool", "true")
+		er := g.entryR
+		if er == "" {
+			er = "true"
+		}
+		g.define(rname, "Bool", er)
 		st = entry
 	} else {
 		var sts []*State
@@ -212,7 +216,7 @@ func (g *Gen) block(b *ssa.BasicBlock, entry *State) {
 					seen++
 				}
 			}
-			en := fmt.Sprintf("e_%d_%d_%d", p.Index, b.Index, k)
+			en := g.pfx + fmt.Sprintf("e_%d_%d_%d", p.Index, b.Index, k)
 			g.define(en, "Bool", "(and "+rp+" "+g.edgeCond(p, idx)+")")
 			edges = append(edges, en)
 			preds = append(preds, p)
@@ -701,6 +705,9 @@ func (g *Gen) scanCall(li *loopInfo, st *State, ins ssa.CallInstruction, kinds m
 			}
 		}
 	}
+	if len(ci.con.ModEach) > 0 {
+		li.allHav = true // conservative: quantified footprints inside loops are not tracked
+	}
 	for _, m := range ci.con.Modifies {
 		k, loc, win := g.modItem(ci, m, vars, st, outside)
 		for _, kk := range k {
@@ -1129,8 +1136,33 @@ func (g *Gen) instFrames(kind, sk string) {
 		if f.kind != kind {
 			continue
 		}
-		c := strings.ReplaceAll(f.conds, "(l_obj l)", "(l_obj "+sk+")")
-		c = strings.ReplaceAll(c, "(= l ", "(= "+sk+" ")
+		c := substSym(f.conds, "l", sk)
 		g.assume("(=> " + c + " (= (select " + f.hn + " " + sk + ") (select " + f.hpre + " " + sk + ")))")
 	}
+}
+
+// substSym replaces the free symbol sym by repl in an SMT term (token-wise).
+func substSym(t, sym, repl string) string {
+	var sb strings.Builder
+	i := 0
+	for i < len(t) {
+		c := t[i]
+		if c == '(' || c == ')' || c == ' ' || c == '\n' {
+			sb.WriteByte(c)
+			i++
+			continue
+		}
+		j := i
+		for j < len(t) && t[j] != '(' && t[j] != ')' && t[j] != ' ' && t[j] != '\n' {
+			j++
+		}
+		tok := t[i:j]
+		if tok == sym {
+			sb.WriteString(repl)
+		} else {
+			sb.WriteString(tok)
+		}
+		i = j
+	}
+	return sb.String()
 }
